@@ -194,7 +194,20 @@ def build_goto(obl, wdir):
     with open(os.path.join(wdir, "goto-cc.log"), "wb") as f:
         f.write((" ".join(shlex.quote(c) for c in cmd) + "\n").encode())
         f.write(p.stdout)
-    return (gb if p.returncode == 0 and os.path.exists(gb) else None), fb, p.stdout.decode("utf-8", "replace")
+    out = p.stdout.decode("utf-8", "replace")
+    if p.returncode != 0 or not os.path.exists(gb):
+        return None, fb, out
+    # optional goto-instrument passes (e.g. --restrict-function-pointer)
+    for i, args in enumerate(obl.get("instrument", [])):
+        gb2 = os.path.join(wdir, "h.i%d.gb" % i)
+        q = subprocess.run(["goto-instrument"] + list(args) + [gb, gb2], cwd=wdir,
+                           stdout=subprocess.PIPE, stderr=subprocess.STDOUT)
+        with open(os.path.join(wdir, "goto-cc.log"), "ab") as f:
+            f.write(q.stdout)
+        if q.returncode != 0 or not os.path.exists(gb2):
+            return None, fb, out + q.stdout.decode("utf-8", "replace")
+        gb = gb2
+    return gb, fb, out
 
 
 def cbmc_cmd(obl, gb, extra=()):
@@ -246,6 +259,7 @@ def run_obligation(pid, obl, tier):
         res["messages"].append("goto-cc failed: " + cclog[-2000:])
         res["seconds"] = time.time() - t0
         return res
+    res["gb"] = gb
     cmd = cbmc_cmd(obl, gb)
     with open(os.path.join(wdir, "cbmc.cmd"), "w") as f:
         f.write(" ".join(shlex.quote(c) for c in cmd) + "\n")
@@ -279,9 +293,12 @@ def run_obligation(pid, obl, tier):
     res["unwind"] = unwind
     want = obl.get("reach")
     if want:
-        for w in want:
-            if w not in reach_ok and w not in reach_fail:
-                res["reach_missing"].append(w + " (label not found)")
+        # only the labels the plan requires for this shape must be reachable
+        res["reach_missing"] = [w for w in want if w not in reach_ok]
+    res["reach_unreached_optional"] = [w for w in reach_fail if not want or w not in want]
+    if not want:
+        # no explicit requirement: at least one witness must be reachable
+        res["reach_missing"] = [] if reach_ok else list(reach_fail)
     if obl.get("termination"):
         # loops exceeding the stated bound ARE the violation
         res["violations"] = viol + unwind
@@ -340,7 +357,7 @@ def extract_values(trace):
 
 def get_trace(obl, res, viol):
     wdir = res["wdir"]
-    gb = os.path.join(wdir, "h.gb")
+    gb = res.get("gb") or os.path.join(wdir, "h.gb")
     extra = ["--trace", "--property", viol["cbmc_property"]]
     cmd = cbmc_cmd(obl, gb, extra)
     out = os.path.join(wdir, "trace_%s.json" % sanitize(viol["cbmc_property"]))
